@@ -182,8 +182,17 @@ def propTags (props : List (String × String)) : List (String × TagVal ν) :=
 def pointTag : String := "point"
 def pathTag : String := "path"
 
-/-- `fillFromFeature` (the `switch geometry := f.Geometry.Coordinates.(type)` and the property loop) -/
-def fillFromFeature (f : Feature ν) (id : Nat) : Fill ν :=
+/-- `keyAvoidingGeometryTags(key, "geojson")` (after `fixes/C32-reserved-property-keys.patch`): the two keys b6
+keeps a feature's geometry under are stored as `geojson:point` / `geojson:path` -/
+def storedKey (k : String) : String :=
+  if k == pointTag || k == pathTag then "geojson:" ++ k else k
+
+/-- the feature with its property keys as they are stored -/
+def stored (f : Feature ν) : Feature ν := { f with props := f.props.map fun kv => (storedKey kv.1, kv.2) }
+
+/-- `fillFromFeature` (the `switch geometry := f.Geometry.Coordinates.(type)` and the property loop) with the
+property keys taken as they are — the code before `fixes/C32-reserved-property-keys.patch` -/
+def fillFromFeatureRaw (f : Feature ν) (id : Nat) : Fill ν :=
   match f.geom with
   | .point c => .added { ftype := .point, id := id, tags := (pointTag, .point c) :: propTags f.props }
   | .lineString cs =>
@@ -197,6 +206,9 @@ def fillFromFeature (f : Feature ν) (id : Nat) : Fill ν :=
     else .added { ftype := .area, id := id, tags := propTags f.props, polygons := ps.map (·.map stripClose) }
   | .multiPoint _ => .dropped
   | .multiLineString _ => .dropped
+
+/-- `fillFromFeature`: properties are stored under `storedKey` -/
+def fillFromFeature (f : Feature ν) (id : Nat) : Fill ν := fillFromFeatureRaw (stored f) id
 
 /-- the loop of `FillFromGeoJSON` over `g.Features` starting at index `i`; `none` = panic -/
 def fillFrom : List (Feature ν) → Nat → Option (List (Imported ν))
@@ -276,8 +288,8 @@ def expectedGeom : Geom ν → Option (FType × ObsGeom ν)
 /-- class `multi-geometry-dropped` is the complement of this -/
 def importable (g : Geom ν) : Bool := (expectedGeom g).isSome
 
-/-- class `reserved-property-key`: a property whose key is the tag b6 keeps the geometry of this feature kind
-under (or, for a path, the `point` tag `Tags.GeometryLen` looks at first) -/
+/-- a property whose key is the tag b6 keeps the geometry of this feature kind under (or, for a path, the `point`
+tag `Tags.GeometryLen` looks at first) — the former finding `reserved-property-key`; no stored feature has one -/
 def reservedClash (f : Feature ν) : Bool :=
   match f.geom with
   | .point _ => f.props.any (·.1 == pointTag)
@@ -292,8 +304,9 @@ def wellShaped (g : Geom ν) : Bool :=
   | .multiPolygon ps => !ps.any (·.any (·.isEmpty))
   | _ => true
 
-/-- feature `i` of the collection is in the world `w`, once, with its geometry and its properties -/
-def importedFaithfully (w : List (Imported ν)) (f : Feature ν) (i : Nat) : Bool :=
+/-- feature `i` of the collection is in the world `w`, once, with its geometry and its properties readable under
+their own keys -/
+def importedFaithfullyRaw (w : List (Imported ν)) (f : Feature ν) (i : Nat) : Bool :=
   match expectedGeom f.geom with
   | none => false
   | some (t, g) =>
@@ -303,6 +316,11 @@ def importedFaithfully (w : List (Imported ν)) (f : Feature ν) (i : Nat) : Boo
       observe x == g
       && f.props.all (fun kv => getTag x.tags kv.1 == some (.str kv.2))
       && (w.filter fun y => y.id == i).length == 1
+
+/-- feature `i` of the collection is in the world `w`, once, with its geometry and every property readable under
+the key it is stored under (`storedKey`: its own key, except for the two reserved ones) -/
+def importedFaithfully (w : List (Imported ν)) (f : Feature ν) (i : Nat) : Bool :=
+  importedFaithfullyRaw w (stored f) i
 
 /-- the world after `import-geojson` of a collection into an empty world (`none` = panic) -/
 def importCollection (fs : List (Feature ν)) : Option (List (Imported ν)) :=
